@@ -1096,3 +1096,157 @@ Section Dial.
     - auto.
   Qed.
 End Dial.
+
+(* ---------------------------------------------------------------------------------------------
+   raw sniffed value -> NormalizeDomain -> ChooseDialTarget
+   --------------------------------------------------------------------------------------------- *)
+Close Scope string_scope.
+Open Scope N_scope.
+
+Lemma has_suffix1_contains : forall c s, has_suffix1 c s = true -> contains c s = true.
+Proof.
+  intros c s H. unfold has_suffix1 in H. destruct (rev s) as [|x r] eqn:E; try discriminate.
+  apply N.eqb_eq in H. subst x. unfold contains. apply existsb_exists. exists c. split; [|apply N.eqb_refl].
+  apply in_rev. rewrite E. left. reflexivity.
+Qed.
+
+Lemma has_suffix1_app_cons : forall c a x b, has_suffix1 c (a ++ x :: b) = has_suffix1 c (x :: b).
+Proof.
+  intros. unfold has_suffix1. rewrite rev_app_distr.
+  destruct (rev (x :: b)) as [|y r] eqn:E.
+  - apply (f_equal (@length N)) in E. rewrite rev_length in E. discriminate.
+  - reflexivity.
+Qed.
+
+Lemma split_not_rbr_suffix : forall s h p, split_host_port s = Some (h, p) -> has_suffix1 c_rbr s = false.
+Proof.
+  intros s h p H. unfold split_host_port in H.
+  destruct (break_last c_colon s) as [[before port]|] eqn:EL; try discriminate.
+  destruct s as [|x tl]; try discriminate.
+  destruct (x =? c_lbr) eqn:Ex.
+  - destruct (break_at c_rbr tl) as [[host after]|] eqn:EA; try discriminate.
+    destruct after as [|c p']; try discriminate.
+    destruct ((c =? c_colon) && negb (contains c_colon p')) eqn:E1; try discriminate.
+    destruct (contains c_lbr host || contains c_lbr p') eqn:E2; try discriminate.
+    destruct (contains c_rbr p') eqn:E3; try discriminate.
+    apply break_at_eq in EA. destruct EA as [EA _]. subst tl.
+    apply andb_true_iff in E1. destruct E1 as [E1 _]. apply N.eqb_eq in E1. subst c.
+    replace (x :: host ++ c_rbr :: c_colon :: p') with ((x :: host ++ [c_rbr]) ++ c_colon :: p')
+      by (cbn; rewrite <- app_assoc; reflexivity).
+    rewrite has_suffix1_app_cons.
+    destruct (has_suffix1 c_rbr (c_colon :: p')) eqn:ES; auto.
+    apply has_suffix1_contains in ES. rewrite contains_cons in ES. rewrite E3 in ES. discriminate.
+  - destruct (contains c_colon before); try discriminate.
+    destruct (contains c_lbr (x :: tl)); try discriminate.
+    destruct (contains c_rbr (x :: tl)) eqn:E3; try discriminate.
+    destruct (has_suffix1 c_rbr (x :: tl)) eqn:ES; auto.
+    apply has_suffix1_contains in ES. congruence.
+Qed.
+
+Lemma bracketed_shape : forall s, has_prefix1 c_lbr s = true -> has_suffix1 c_rbr s = true ->
+                                  s = c_lbr :: drop_first_last s ++ [c_rbr].
+Proof.
+  intros s Hp Hs. destruct s as [|x tl]; try discriminate. cbn in Hp. apply N.eqb_eq in Hp. subst x.
+  unfold has_suffix1 in Hs. destruct (rev (c_lbr :: tl)) as [|y r] eqn:E; try discriminate.
+  apply N.eqb_eq in Hs. subst y.
+  assert (E' : c_lbr :: tl = rev r ++ [c_rbr]).
+  { rewrite <- (rev_involutive (c_lbr :: tl)). rewrite E. reflexivity. }
+  destruct (rev r) as [|z r'] eqn:ER.
+  - cbn in E'. inversion E'.
+  - cbn in E'. inversion E'; subst. unfold drop_first_last. cbn [tl]. rewrite removelast_last. reflexivity.
+Qed.
+
+Lemma contains_removelast : forall c s, contains c s = false -> contains c (removelast s) = false.
+Proof.
+  intros c s H. destruct s as [|x r]; auto.
+  assert (Hne : x :: r <> []) by discriminate.
+  rewrite (app_removelast_last 0 Hne) in H. rewrite contains_app in H. apply orb_false_iff in H. tauto.
+Qed.
+
+Lemma trim_suffix_dot_clean : forall s, no_brackets s = true -> no_brackets (trim_suffix_dot s) = true.
+Proof.
+  intros s H. unfold trim_suffix_dot. destruct (has_suffix1 c_dot s); auto.
+  apply no_brackets_iff in H. destruct H. apply no_brackets_iff. split; apply contains_removelast; auto.
+Qed.
+
+Section Sniffed.
+  Variable is_ip : str -> bool.
+
+  (* wherever the spec names the sniffed host, NormalizeDomain returns exactly it; it has no bracket, and
+     it is an IP literal or has no colon *)
+  Lemma sniffed_host_normalize : forall lt h,
+      spec_sniffed_host is_ip lt = Some h ->
+      normalize_lowered lt = h /\ no_brackets h = true /\ (is_ip h = true \/ contains c_colon h = false).
+  Proof.
+    intros lt h H. unfold spec_sniffed_host in H. unfold normalize_lowered.
+    destruct (split_host_port lt) as [[h' p']|] eqn:ES.
+    - destruct (negb (contains c_colon h') || is_ip h') eqn:EK; try discriminate.
+      inversion H; subst. rewrite (split_not_rbr_suffix _ _ _ ES). split; auto. split.
+      + apply split_host_port_clean in ES. tauto.
+      + apply orb_true_iff in EK. destruct EK as [EK|EK]; auto. apply negb_true_iff in EK. auto.
+    - destruct (has_prefix1 c_lbr lt && has_suffix1 c_rbr lt) eqn:EB.
+      + apply andb_true_iff in EB. destruct EB as [EP ESf].
+        destruct (is_ip (drop_first_last lt) && no_brackets (drop_first_last lt)) eqn:EI; try discriminate.
+        inversion H; subst. apply andb_true_iff in EI. destruct EI as [EIp EN]. rewrite ESf.
+        split; [|split; auto]. rewrite (bracketed_shape lt EP ESf) at 1. apply trim_brackets_bracketed. exact EN.
+      + destruct (no_brackets lt) eqn:EN; cbn [negb] in H; try discriminate.
+        assert (ESf : has_suffix1 c_rbr lt = false).
+        { destruct (has_suffix1 c_rbr lt) eqn:E; auto. apply has_suffix1_contains in E.
+          apply no_brackets_iff in EN. destruct EN. congruence. }
+        rewrite ESf. destruct (is_ip lt) eqn:EIp.
+        * destruct (has_suffix1 c_dot lt) eqn:ED; try discriminate. inversion H; subst.
+          unfold trim_suffix_dot. rewrite ED. auto.
+        * destruct (contains c_colon lt) eqn:ECo; try discriminate. inversion H; subst.
+          split; auto. split; [apply trim_suffix_dot_clean; exact EN|]. right.
+          unfold trim_suffix_dot. destruct (has_suffix1 c_dot lt); auto. apply contains_removelast. exact ECo.
+  Qed.
+
+  Lemma sniffed_host_class : forall h,
+      no_brackets h = true -> (is_ip h = true \/ contains c_colon h = false) ->
+      classify is_ip h = match h with [] => CEmpty | _ => if is_ip h then CIpLit h else CName h end.
+  Proof.
+    intros h HC HK. unfold classify. destruct h as [|x h']; auto. rewrite (unbracket_clean _ HC).
+    destruct (is_ip (x :: h')) eqn:E; auto. destruct HK as [HK|HK]; try discriminate.
+    unfold split_host_port. rewrite (break_last_none _ _ HK). reflexivity.
+  Qed.
+
+  (* the composition: for every raw value whose host the spec names, normalise-then-choose decides as
+     the table says for the class of THAT host, and the target is well-formed: SplitHostPort accepts it,
+     its host is the sniffed host (no bracket, no port) or the original IP, its port has no colon *)
+  Lemma sniffed_to_target :
+    forall mode outbound dst lt h l,
+      spec_sniffed_host is_ip lt = Some h ->
+      let k := knowledge_of is_ip l in
+      let c := classify is_ip h in
+      let r := is_reserved outbound in
+      let o := choose_dial_target is_ip mode outbound dst (normalize_lowered lt) l in
+      o_use_name o = spec_use_name is_ip mode r c k /\
+      o_reroute o = spec_reroute is_ip mode r c k /\
+      (dest_wf dst = true ->
+       exists th tp, split_host_port (o_target o) = Some (th, tp) /\
+                     (th, tp) = spec_endpoint is_ip mode r (d_ip dst) (d_port dst) c k /\
+                     (th = h \/ th = d_ip dst) /\ tp = itoa (d_port dst) /\ no_brackets th = true).
+  Proof.
+    intros mode outbound dst lt h l HS. cbv zeta.
+    destruct (sniffed_host_normalize lt h HS) as [HN [HC HK]]. rewrite HN.
+    destruct (choose_table is_ip mode outbound dst h l) as [HU [HR HT]].
+    split; auto. split; auto. intros Hwf.
+    pose proof (sniffed_host_class h HC HK) as Hcls.
+    assert (Hlc : literal_clean (classify is_ip h) = true).
+    { rewrite Hcls. destruct h; auto. destruct (is_ip (n :: h)); cbn; auto. }
+    assert (Hec : endpoint_constrained is_ip mode (is_reserved outbound) (classify is_ip h) (knowledge_of is_ip l) = true).
+    { unfold endpoint_constrained. destruct (spec_use_name _ _ _ _ _); auto.
+      rewrite Hcls. destruct h; auto. destruct (is_ip (n :: h)); auto. }
+    specialize (HT Hwf Hlc Hec). apply denotes_elim in HT.
+    destruct (spec_endpoint is_ip mode (is_reserved outbound) (d_ip dst) (d_port dst) (classify is_ip h) (knowledge_of is_ip l))
+      as [th tp] eqn:EE.
+    exists th, tp. split; auto. split; auto.
+    pose proof (split_host_port_clean _ _ _ HT) as [Hth _].
+    unfold spec_endpoint in EE. rewrite Hcls in EE.
+    destruct (spec_use_name _ _ _ _ _).
+    - destruct h as [|x h'].
+      + inversion EE; subst. auto.
+      + destruct (is_ip (x :: h')); inversion EE; subst; auto.
+    - inversion EE; subst. auto.
+  Qed.
+End Sniffed.
